@@ -107,7 +107,11 @@ func lastDot(s string) string {
 }
 
 // Addr is an abstract address.
-type Addr struct{ K string }
+type Addr struct {
+	K string
+	// Grp: the address of a transparent grouping field (see resolveFieldGroups); K is the enclosing struct's path
+	Grp types.Type
+}
 
 func (a *Addr) Key() string { return "&" + a.K }
 
@@ -204,6 +208,7 @@ type Event struct {
 	Chan     AV
 	Blocking bool
 	NDec     int // number of decisions taken before this event
+	boolFlag bool // an atomic.Bool operation rendered as the 0/1 integer flag
 }
 
 type Decision struct {
@@ -946,6 +951,28 @@ func (it *interp) step(st *state, fr *frame, in ssa.Instruction) bool {
 func (it *interp) store(st *state, a AV, v AV, in ssa.Instruction, fr *frame) {
 	ad, ok := a.(*Addr)
 	k := ""
+	if ok && ad.Grp != nil {
+		// a whole group of fields is assigned at once: one store per field, under the fields' reference names
+		if gst, isSt := ad.Grp.Underlying().(*types.Struct); isSt {
+			for j := 0; j < gst.NumFields(); j++ {
+				fn := fieldName(gst.Field(j))
+				var fv AV
+				if sv, isSV := v.(*StructV); isSV && j < len(sv.Fields) && sv.Fields[j] != nil {
+					fv = sv.Fields[j]
+				} else if _, isSV := v.(*StructV); isSV {
+					fv = zeroOf(gst.Field(j).Type())
+				} else {
+					fv = it.project(v, fn, gst.Field(j).Type())
+				}
+				sub := &Addr{K: joinField(ad.K, fn)}
+				if fn == "" {
+					sub.Grp = gst.Field(j).Type()
+				}
+				it.store(st, sub, fv, in, fr)
+			}
+			return
+		}
+	}
 	if ok {
 		k = ad.K
 	} else {
@@ -968,7 +995,20 @@ func (it *interp) memStore(st *state, k string, v AV) {
 			st.mem[k] = &Const{Zero: sv.T}
 			for i := 0; i < stt.NumFields() && i < len(sv.Fields); i++ {
 				if sv.Fields[i] != nil {
-					it.memStore(st, k+"."+fieldName(stt.Field(i)), sv.Fields[i])
+					if fieldName(stt.Field(i)) == "" {
+						// a transparent grouping field: its fields live directly under k
+						if sub, ok := sv.Fields[i].(*StructV); ok {
+							if sst, ok := sub.T.Underlying().(*types.Struct); ok {
+								for j := 0; j < sst.NumFields() && j < len(sub.Fields); j++ {
+									if sub.Fields[j] != nil {
+										it.memStore(st, joinField(k, fieldName(sst.Field(j))), sub.Fields[j])
+									}
+								}
+							}
+						}
+						continue
+					}
+					it.memStore(st, joinField(k, fieldName(stt.Field(i))), sv.Fields[i])
 				}
 			}
 		}
@@ -1023,6 +1063,13 @@ func fieldType(t types.Type, f string) types.Type {
 				return stt.Field(i).Type()
 			}
 		}
+		for i := 0; i < stt.NumFields(); i++ {
+			if fieldName(stt.Field(i)) == "" {
+				if ft := fieldType(stt.Field(i).Type(), f); ft != nil {
+					return ft
+				}
+			}
+		}
 	}
 	return nil
 }
@@ -1042,7 +1089,7 @@ func (it *interp) load(st *state, ad *Addr, t types.Type) AV {
 		if has {
 			sv := &StructV{T: t, Fields: make([]AV, stt.NumFields())}
 			for i := 0; i < stt.NumFields(); i++ {
-				sv.Fields[i] = it.load(st, &Addr{K: pre + fieldName(stt.Field(i))}, stt.Field(i).Type())
+				sv.Fields[i] = it.load(st, &Addr{K: joinField(k, fieldName(stt.Field(i)))}, stt.Field(i).Type())
 			}
 			return sv
 		}
@@ -1088,6 +1135,17 @@ func (it *interp) project(base AV, f string, ft types.Type) AV {
 			for i := 0; i < stt.NumFields(); i++ {
 				if fieldName(stt.Field(i)) == f && b.Fields[i] != nil {
 					return b.Fields[i]
+				}
+			}
+			if f != "" {
+				for i := 0; i < stt.NumFields(); i++ {
+					if fieldName(stt.Field(i)) == "" && b.Fields[i] != nil {
+						if sub, ok := b.Fields[i].(*StructV); ok {
+							if ft2 := fieldType(sub.T, f); ft2 != nil {
+								return it.project(sub, f, ft)
+							}
+						}
+					}
 				}
 			}
 		}
@@ -1218,10 +1276,14 @@ func (it *interp) evalInstr(st *state, fr *frame, in ssa.Value) AV {
 		base := it.eval(st, fr, v.X)
 		stt := derefType(v.X.Type()).Underlying().(*types.Struct)
 		fname := fieldName(stt.Field(v.Field))
-		if ad, ok := base.(*Addr); ok {
-			return &Addr{K: ad.K + "." + fname}
+		var grp types.Type
+		if fname == "" {
+			grp = stt.Field(v.Field).Type()
 		}
-		return &Addr{K: typeShort(v.X.Type()) + "." + fname}
+		if ad, ok := base.(*Addr); ok {
+			return &Addr{K: joinField(ad.K, fname), Grp: grp}
+		}
+		return &Addr{K: joinField(typeShort(v.X.Type()), fname), Grp: grp}
 	case *ssa.Field:
 		base := it.eval(st, fr, v.X)
 		stt := v.X.Type().Underlying().(*types.Struct)
@@ -1605,7 +1667,48 @@ func (it *interp) callEvent(st *state, fr *frame, cc *ssa.CallCommon, in ssa.Ins
 	for _, a := range cc.Args {
 		ev.Args = append(ev.Args, it.eval(st, fr, a))
 	}
+	canonAtomic(ev)
 	return ev
+}
+
+// canonAtomic: the typed values of sync/atomic (atomic.Int32/Int64/Bool, Go 1.19) are the function forms on a plain integer:
+// x.Store(v) ≡ atomic.StoreInt64(&x, v), x.Load() ≡ atomic.LoadInt64(&x), x.Add(d) ≡ atomic.AddInt64(&x, d); a Bool is the
+// flag 0/1 (Store(true) ≡ StoreInt64(&x, 1); Load() ≡ LoadInt64(&x) == 1, see doCall).
+func canonAtomic(ev *Event) {
+	const pre = "(*sync/atomic."
+	if !strings.HasPrefix(ev.Callee, pre) && !strings.HasPrefix(ev.Callee, "(*atomic.") {
+		return
+	}
+	rest := strings.TrimPrefix(strings.TrimPrefix(ev.Callee, pre), "(*atomic.")
+	i := strings.Index(rest, ").")
+	if i < 0 {
+		return
+	}
+	typ, meth := rest[:i], rest[i+2:]
+	switch meth {
+	case "Store", "Load", "Add", "Swap", "CompareAndSwap":
+	default:
+		return
+	}
+	switch typ {
+	case "Int32", "Int64", "Uint32", "Uint64":
+		ev.Callee = "atomic." + meth + typ
+	case "Bool":
+		if meth != "Store" && meth != "Load" {
+			return
+		}
+		ev.Callee = "atomic." + meth + "Int64"
+		ev.boolFlag = true
+		if meth == "Store" && len(ev.Args) == 2 {
+			if b, ok := avBool(ev.Args[1]); ok {
+				if b {
+					ev.Args[1] = cInt(1)
+				} else {
+					ev.Args[1] = cInt(0)
+				}
+			}
+		}
+	}
 }
 
 func (it *interp) doCall(st *state, fr *frame, in *ssa.Call) bool {
@@ -1620,6 +1723,10 @@ func (it *interp) doCall(st *state, fr *frame, in *ssa.Call) bool {
 		case "len", "cap":
 			if s, ok := avStr(args[0]); ok && b.Name() == "len" {
 				fr.env[in] = cInt(int64(len(s)))
+				return true
+			}
+			if c, ok := args[0].(*Const); ok && c.IsNil {
+				fr.env[in] = cInt(0) // len and cap of a nil slice / map / channel
 				return true
 			}
 			if e, ok := args[0].(*Expr); ok && e.Op == "slice" {
@@ -1680,6 +1787,14 @@ func (it *interp) doCall(st *state, fr *frame, in *ssa.Call) bool {
 	res := AV(&Expr{Op: "call", Name: ev.Callee + "@" + it.siteID(in), Args: ev.Args, T: in.Type()})
 	if x, ok := it.valLookup(res.Key(), "call:"+ev.Callee); ok {
 		res = x
+	}
+	if ev.boolFlag && ev.Callee == "atomic.LoadInt64" {
+		// an atomic.Bool read as the integer flag it replaces
+		if c, ok := avInt(res); ok {
+			res = cBool(c == 1)
+		} else {
+			res = &Expr{Op: "binop", Name: "==", Args: []AV{res, cInt(1)}, T: in.Type()}
+		}
 	}
 	ev.Res = res
 	// havoc: a pointer to a local/heap allocation that escapes into an opaque callee may be written there
